@@ -45,9 +45,11 @@ def sum_binds_names(expr, names) -> bool:
     return walk(expr)
 
 
-def sum_binds_event_variable(expr, revent, subscripts=False) -> bool:
+def sum_binds_event_variable(expr, revent, subscripts=False, conditional=False) -> bool:
     """The expression sums over a base variable that the returned event also fixes: one world of that variable is
-    part of the query and another world of it had to be marginalised, but both carry the same unmarked name."""
+    part of the query and another world of it had to be marginalised, but both carry the same unmarked name.
+    For a conditional result numerator / Sum[...](numerator) the outermost sum of the denominator is the
+    normalisation over the outcome variables and is not counted."""
     from y0.dsl import Fraction, Product, Sum
 
     bases = {v for v, _, _ in atoms_of_pairs(revent)} if revent else set()
@@ -63,6 +65,8 @@ def sum_binds_event_variable(expr, revent, subscripts=False) -> bool:
             return walk(e.numerator) or walk(e.denominator)
         return False
 
+    if conditional and isinstance(expr, Fraction) and isinstance(expr.denominator, Sum):
+        return walk(expr.numerator) or walk(expr.denominator.expression)
     return walk(expr)
 
 
@@ -296,7 +300,7 @@ def check_case(g, ev, domains, expr, revent, timeout_ms, delta=()):
         return out
     stray = sorted(free_cp_names(expr) - set(env))
     # unmarked variables that the returned event does not fix: the value must not depend on them (all values tried)
-    out["sum_binds_event"] = sum_binds_event_variable(expr, revent)
+    out["sum_binds_event"] = sum_binds_event_variable(expr, revent, conditional=bool(delta))
     query_subscripts = {n for _, s_, _ in tuple(ev) + tuple(delta) for n, _ in s_}
     out["sum_binds_subscript"] = sum_binds_event_variable(expr, revent, subscripts=True) or sum_binds_names(expr, query_subscripts)
     out["stray_subscripts"] = sorted((free_cp_names(expr) - set(env)) & query_subscripts)
@@ -461,8 +465,27 @@ def jobs_for(t):
                     if i % stride == offset % stride:
                         yield (ga,), [d], (de,)
 
+    def cond_multi(g, stride, offset, max_sub=0):
+        """Two outcome atoms given one condition atom, and one outcome atom given two condition atoms, over
+        distinct base variables (Algorithm 3 keeps the ancestral components of outcomes AND conditions)."""
+        i = 0
+        atoms = [a for (a,) in events(g.nodes, 1, max_sub)]
+        for trio in itt.combinations(atoms, 3):
+            if len({a[0] for a in trio}) < 3 or not consistent(trio):
+                continue
+            for k in range(3):
+                single = (trio[k],)
+                pair = tuple(a for j, a in enumerate(trio) if j != k)
+                for ga, de in ((pair, single), (single, pair)):
+                    for d in domain_sets(g.nodes):
+                        i += 1
+                        if i % stride == offset % stride:
+                            yield ga, [d], de
+
     fig2 = G("ZXWY", ["ZX", "ZY", "XY", "XW", "WY"], ["ZX", "WY"])
     if t == "quick":
+        for g in family(3, labellings=("fwd",), n_min=3):
+            add(g, cond_multi(g, 11, seed()))
         for g in family(2, labellings=("fwd",), n_min=2):
             add(g, cond(g, 1, 0))
         for g in family(3, labellings=("fwd",), n_min=3):
@@ -479,6 +502,8 @@ def jobs_for(t):
     else:
         for g in family(3):
             add(g, cond(g, 5, seed()))
+            add(g, cond_multi(g, 3, seed()))
+            add(g, cond_multi(g, 97, seed(), max_sub=1))
             add(g, one(g, events(g.nodes, 2, 1), stride=3, offset=seed()))
             add(g, one(g, events(g.nodes, 2, 1), stride=31, offset=seed(), all_events=True))
             add(g, two(g, events(g.nodes, 1, 1), stride=41, offset=seed()))
@@ -510,6 +535,7 @@ def run() -> int:
         "inputs that the library's own validation function rejects are skipped (counted); any other exception is a violation",
         "'fail' (None) is accepted",
     ]
+    rep.assumptions.append("every third accepted case is repeated through the public wrappers unconditional_cft / conditional_cft (CFTDomain objects, value-marked event variables) with the explicit ordering - the result must equal the procedure's own - and with ordering=None (graph.topological_sort()): a different expression is then checked semantically like any other output")
     rep.rule = "cases = (target graph, event, domains); non-trivial = an expression was returned and solver-checked; distinct by (graph key, event, domains)"
     for job, st, res in pmap(work, jobs_for(t)):
         if st != "ok":
